@@ -2,28 +2,27 @@
 C03 — exported native value re-imports to an equal element.
 
 `reimport`: for every well-formed schema (Dict / SparseDict under every policy, List / Array,
-scalars, JoinedString, DateYYYYMMDD as table-driven leaf-likes), every native input `x`:
-if `set(x)` returned True for a fresh element `e`, then `set(e.value)` on another fresh element of
-the same schema returns True and builds **the same element state** — hence equal `.value`, `.u`,
-`==` and `flatten()`.
+scalars, JoinedString, DateYYYYMMDD as table-driven leaf-likes), every element state `cur` that
+`set()` can have built and every native input `x`: if `el.set(x)` returned True and left the
+element in state `e`, then `set(e.value)` on a fresh element of the same schema builds **the same
+element state** `e` — hence equal `.value`, `.u`, `==` and `flatten()`.  The flag that second
+`set()` returns is *not* part of the claim (the property asks for equal elements): a DateYYYYMMDD
+set with an unparseable text reports True, exports None, and None re-imports to the same state
+with the flag False.
 
-Hypotheses on the leaf-likes (the subjects of C04 / C18, checked there and by correspondence):
-* `LeafIdem`: a leaf that adapted `x` to the value `v` adapts `v` to the same value, text and parts;
-* `BlankOk`: a fresh leaf re-set with its own (fresh) value stays as it is.
-The negation witness `reimport_needs_leafIdem` shows what happens without (KF-C03-a).
+Hypothesis on the leaf-likes, *localised to the leaves that occur in `e`* (`leafStable env false s
+e`, a decidable function the runner evaluates on the table extracted from the real classes for
+every generated case): a fresh leaf-like of the same kind, set with the leaf's exported value, gets
+into the leaf's state.  The blank-filled leaves of `e` are leaves of `e`, so the condition on fresh
+leaves is included, only for the kinds that are actually blank-filled.  `reimport_true`: if the
+leaves also report True on their exported value, so does the container.
+
+The negation witness `reimport_needs_leafIdem` shows what happens without (KF-C03-a: a pruning
+JoinedString holding an empty member text).
 -/
 import Flatland.C03
 namespace Flatland.C03.Proofs
 open Flatland.C03
-
-def LeafIdem (env : Env) : Prop :=
-  ∀ k x, (env.adapt k x).1 = true → env.adapt k (env.adapt k x).2.1 = (true, (env.adapt k x).2)
-
-def BlankOk (env : Env) : Prop :=
-  ∀ k, env.adapt k (env.blankLeaf k).1 = (true, env.blankLeaf k)
-
-/-- an element that its own exported value rebuilds -/
-def Stable (env : Env) (s : Schema) (e : Elem) : Prop := setNative env s (value e) = .ok (e, true)
 
 def namesOf : List Schema → List (Option Str)
   | [] => []
@@ -56,39 +55,65 @@ theorem fieldNames_eq (fs : List Schema) (h : (namesOf fs).all Option.isSome = t
     | none => simp [hn] at h
     | some x => simp
 
-theorem setOne_of_mem (env : Env) (fs : List Schema) (hn : (namesOf fs).Nodup) (f : Schema) (hf : f ∈ fs)
-    (key : Str) (hk : f.name = some key) (v : Native) :
-    setOne env fs key v = some (setNative env f v) := by
+theorem mem_namesOf (f : Schema) (fs : List Schema) (h : f ∈ fs) : f.name ∈ namesOf fs := by
+  induction fs with
+  | nil => simp at h
+  | cons a as iha =>
+    rcases List.mem_cons.mp h with rfl | h'
+    · simp [namesOf]
+    · simp [namesOf, iha h']
+
+theorem findField_of_mem (fs : List Schema) (hn : (namesOf fs).Nodup) (f : Schema) (hf : f ∈ fs)
+    (key : Str) (hk : f.name = some key) : findField key fs = some f := by
   induction fs with
   | nil => simp at hf
   | cons g gs ih =>
     simp only [namesOf, List.nodup_cons] at hn
-    unfold setOne
+    unfold findField
     rcases List.mem_cons.mp hf with rfl | hin
     · simp [hk]
     · have hne : g.name ≠ some key := by
         intro heq
         apply hn.1
         rw [heq, ← hk]
-        clear ih hn hf
-        induction gs with
-        | nil => simp at hin
-        | cons a as iha =>
-          rcases List.mem_cons.mp hin with rfl | h'
-          · simp [namesOf]
-          · simp [namesOf, iha h']
+        exact mem_namesOf f gs hin
       simp only [hne, if_false]
       exact ih hn.2 hin
 
-theorem setOne_some_key (env : Env) (fs : List Schema) (key : Str) (v : Native) (r)
-    (h : setOne env fs key v = some r) : key ∈ fieldNames fs := by
+theorem findField_mem (fs : List Schema) (key : Str) (f : Schema) (h : findField key fs = some f) :
+    f ∈ fs ∧ f.name = some key := by
   induction fs with
-  | nil => simp [setOne] at h
+  | nil => simp [findField] at h
   | cons g gs ih =>
-    unfold setOne at h
+    unfold findField at h
+    split at h
+    · rename_i hk
+      simp only [Option.some.injEq] at h
+      subst h
+      exact ⟨by simp, hk⟩
+    · exact ⟨List.mem_cons_of_mem _ (ih h).1, (ih h).2⟩
+
+theorem findField_key (fs : List Schema) (key : Str) (f : Schema) (h : findField key fs = some f) :
+    key ∈ fieldNames fs := by
+  induction fs with
+  | nil => simp [findField] at h
+  | cons g gs ih =>
+    unfold findField at h
     split at h
     · rename_i hk; simp [fieldNames, hk]
     · simp [fieldNames, ih h]
+
+/-- `setOne` sets the first declared field of that name, from the member that is there or a fresh one -/
+theorem setOne_eq (env : Env) (fs : List Schema) (key : Str) (cur : Option Elem) (v : Native) :
+    setOne env fs key cur v
+      = (findField key fs).map (fun f => setNative env f (cur.getD (blank env f)) v) := by
+  induction fs with
+  | nil => simp [setOne, findField]
+  | cons g gs ih =>
+    unfold setOne findField
+    split
+    · simp
+    · exact ih
 
 theorem lookup_none_of_not_mem (key : Str) (ms : List (Str × Elem)) (h : key ∉ ms.map (·.1)) :
     lookup key ms = none := by
@@ -114,6 +139,20 @@ theorem lookup_isSome_of_mem (key : Str) (ms : List (Str × Elem)) (h : key ∈ 
       rcases h with h | h
       · exact absurd h.symm hk
       · exact ih h
+
+theorem lookup_mem (key : Str) (ms : List (Str × Elem)) (e : Elem) (h : lookup key ms = some e) :
+    (key, e) ∈ ms := by
+  induction ms with
+  | nil => simp [lookup] at h
+  | cons p ps ih =>
+    obtain ⟨k, x⟩ := p
+    simp only [lookup] at h
+    split at h
+    · rename_i hk
+      simp only [Option.some.injEq] at h
+      subst h; subst hk
+      simp
+    · exact List.mem_cons_of_mem _ (ih h)
 
 theorem replace_keys (key : Str) (e : Elem) (ms : List (Str × Elem)) :
     (replace key e ms).map (·.1) = ms.map (·.1) := by
@@ -143,14 +182,18 @@ theorem mem_replace (key : Str) (e : Elem) (ms : List (Str × Elem)) (p : Str ×
         · right; exact List.mem_cons_of_mem _ h'
 
 theorem valueMembers_keys (ms : List (Str × Elem)) :
-    (value.valueMembers ms).map (·.1) = ms.map (·.1) := by
+    (value.valueMembers ms).map (·.1) = ms.map (fun p => Native.text p.1) := by
   induction ms with
   | nil => rfl
   | cons p ps ih => obtain ⟨k, e⟩ := p; simp [value.valueMembers, ih]
 
+theorem valueMembers_length (ms : List (Str × Elem)) : (value.valueMembers ms).length = ms.length := by
+  have := congrArg List.length (valueMembers_keys ms)
+  simpa using this
+
 theorem valueMembers_getElem (ms : List (Str × Elem)) (j : Nat) (h : j < ms.length)
     (h' : j < (value.valueMembers ms).length) :
-    (value.valueMembers ms)[j] = ((ms[j]).1, value (ms[j]).2) := by
+    (value.valueMembers ms)[j] = (Native.text (ms[j]).1, value (ms[j]).2) := by
   induction ms generalizing j with
   | nil => simp at h
   | cons p ps ih =>
@@ -182,168 +225,7 @@ theorem replace_skip_pre (key : Str) (b e : Elem) (pre rest : List (Str × Elem)
     simp only [List.cons_append, replace, Ne.symm h.1, if_false]
     rw [ih h.2]
 
-/-! ### the invariant of the members a `Dict.set` builds -/
-
-/-- `ms` was grown from the blank members `B`: distinct keys, the blank members' keys first and in
-    place, and every member is rebuilt by its own exported value -/
-structure Grown (env : Env) (fields : List Schema) (B ms : List (Str × Elem)) : Prop where
-  nodup : (ms.map (·.1)).Nodup
-  pre : (ms.map (·.1)).take B.length = B.map (·.1)
-  stable : ∀ p ∈ ms, setOne env fields p.1 (value p.2) = some (.ok (p.2, true))
-
-theorem grown_setPairs (env : Env) (fields : List Schema) (B : List (Str × Elem))
-    (hstep : ∀ key v e, setOne env fields key v = some (.ok (e, true)) →
-      setOne env fields key (value e) = some (.ok (e, true))) :
-    ∀ (kvs : List (Str × Native)) (cur ms : List (Str × Elem)), Grown env fields B cur →
-      setPairs env fields cur kvs = .ok (ms, true) → Grown env fields B ms := by
-  intro kvs
-  induction kvs with
-  | nil =>
-    intro cur ms hg h
-    simp only [setPairs, Except.ok.injEq, Prod.mk.injEq, and_true] at h
-    rw [← h]; exact hg
-  | cons kv rest ih =>
-    intro cur ms hg h
-    obtain ⟨key, v⟩ := kv
-    simp only [setPairs] at h
-    cases hso : setOne env fields key v with
-    | none => simp only [hso] at h; exact ih cur ms hg h
-    | some r =>
-      simp only [hso] at h
-      cases r with
-      | error err => simp at h
-      | ok ef =>
-        obtain ⟨e, f⟩ := ef
-        simp only at h
-        split at h
-        · rename_i ms'' f' hrest
-          simp only [Except.ok.injEq, Prod.mk.injEq, Bool.and_eq_true] at h
-          obtain ⟨hms, hf, hf'⟩ := h
-          subst hms; subst hf; subst hf'
-          apply ih _ _ _ hrest
-          have hst := hstep key v e hso
-          cases hl : lookup key cur with
-          | some old =>
-            simp only
-            refine ⟨by rw [replace_keys]; exact hg.nodup, by rw [replace_keys]; exact hg.pre, ?_⟩
-            intro p hp
-            rcases mem_replace key e cur p hp with rfl | hp
-            · exact hst
-            · exact hg.stable p hp
-          | none =>
-            simp only
-            have hnot : key ∉ cur.map (·.1) := by
-              intro hin
-              have := lookup_isSome_of_mem key cur hin
-              rw [hl] at this; cases this
-            refine ⟨?_, ?_, ?_⟩
-            · simp only [List.map_append, List.map_cons, List.map_nil]
-              apply List.nodup_append.mpr
-              refine ⟨hg.nodup, by simp, ?_⟩
-              intro a ha b hb
-              simp only [List.mem_singleton] at hb
-              subst hb
-              intro heq; subst heq; exact hnot ha
-            · have hlen : B.length ≤ (cur.map (·.1)).length := by
-                have := congrArg List.length hg.pre
-                simp only [List.length_take, List.length_map] at this ⊢
-                omega
-              simp only [List.map_append]
-              rw [List.take_append_of_le_length hlen]
-              exact hg.pre
-            · intro p hp
-              rcases List.mem_append.mp hp with hp | hp
-              · exact hg.stable p hp
-              · simp only [List.mem_singleton] at hp; subst hp; exact hst
-        · simp at h
-
-/-- re-importing the exported members of a grown mapping rebuilds it, pair by pair -/
-theorem rebuild (env : Env) (fields : List Schema) (B ms : List (Str × Elem))
-    (hg : Grown env fields B ms) :
-    ∀ (n j : Nat), j + n = ms.length →
-      setPairs env fields (ms.take j ++ B.drop j) ((value.valueMembers ms).drop j) = .ok (ms, true) := by
-  have hBlen : B.length ≤ ms.length := by
-    have := congrArg List.length hg.pre
-    simp only [List.length_take, List.length_map] at this
-    omega
-  intro n
-  induction n with
-  | zero =>
-    intro j hj
-    have hjl : j = ms.length := by omega
-    subst hjl
-    have h1 : (value.valueMembers ms).drop ms.length = [] := by
-      apply List.drop_eq_nil_of_le
-      have := congrArg List.length (valueMembers_keys ms)
-      simp only [List.length_map] at this; omega
-    have h2 : B.drop ms.length = [] := List.drop_eq_nil_of_le hBlen
-    simp [h1, h2, setPairs]
-  | succ n ih =>
-    intro j hj
-    have hjlt : j < ms.length := by omega
-    have hvlen : (value.valueMembers ms).length = ms.length := by
-      have := congrArg List.length (valueMembers_keys ms)
-      simpa using this
-    -- the j-th exported pair
-    have hdrop : (value.valueMembers ms).drop j
-        = ((ms[j]).1, value (ms[j]).2) :: (value.valueMembers ms).drop (j + 1) := by
-      rw [← List.getElem_cons_drop (h := by omega)]
-      rw [valueMembers_getElem ms j hjlt (by omega)]
-    rw [hdrop]
-    simp only [setPairs]
-    have hst := hg.stable ms[j] (List.getElem_mem hjlt)
-    rw [hst]
-    simp only
-    have hkeyj : (ms.map (·.1))[j]'(by simpa using hjlt) = (ms[j]).1 := by simp
-    -- the key is not among the first j members
-    have hnotin : (ms[j]).1 ∉ (ms.take j).map (·.1) := by
-      intro hin
-      have hnd := hg.nodup
-      rw [← List.take_append_drop j (ms.map (·.1))] at hnd
-      have hd := (List.nodup_append.mp hnd).2.2
-      have h1 : (ms[j]).1 ∈ (ms.map (·.1)).take j := by rw [← List.map_take]; exact hin
-      have h2 : (ms[j]).1 ∈ (ms.map (·.1)).drop j := by
-        rw [← List.getElem_cons_drop (h := by simpa using hjlt)]
-        simp
-      exact hd _ h1 _ h2 rfl
-    have hnext : ms.take (j + 1) = ms.take j ++ [ms[j]] := by
-      rw [List.take_succ_eq_append_getElem hjlt]
-    by_cases hjB : j < B.length
-    · -- a blank member sits at this position: it is replaced
-      have hBj : (B[j]).1 = (ms[j]).1 := by
-        have h1 : ((ms.map (·.1)).take B.length)[j]'(by simp; omega) = (B.map (·.1))[j]'(by simpa using hjB) := by
-          simp only [hg.pre]
-        simp only [List.getElem_take, List.getElem_map] at h1
-        exact h1.symm
-      have hBdrop : B.drop j = ((ms[j]).1, (B[j]).2) :: B.drop (j + 1) := by
-        rw [← List.getElem_cons_drop (h := hjB), ← hBj]
-      rw [hBdrop, lookup_skip_pre _ _ _ _ hnotin]
-      simp only
-      have hrep : replace (ms[j]).1 (ms[j]).2 (ms.take j ++ ((ms[j]).1, (B[j]).2) :: B.drop (j + 1))
-          = ms.take (j + 1) ++ B.drop (j + 1) := by
-        rw [replace_skip_pre _ _ _ _ _ hnotin]
-        rw [hnext, List.append_assoc]
-        rfl
-      rw [hrep, ih (j + 1) (by omega)]
-      simp
-    · -- past the blank members: appended
-      have hBd : B.drop j = [] := List.drop_eq_nil_of_le (by omega)
-      have hBd' : B.drop (j + 1) = [] := List.drop_eq_nil_of_le (by omega)
-      rw [hBd, List.append_nil, lookup_none_of_not_mem _ _ hnotin]
-      simp only
-      have := ih (j + 1) (by omega)
-      rw [hBd', List.append_nil, hnext] at this
-      rw [this]
-      simp
-
-
 /-! ### blank members -/
-
-def blankMs (env : Env) (mode : DictMode) (fields : List Schema) : List (Str × Elem) :=
-  match mode with
-  | .dense => blankFields env fields
-  | .sparse => []
-  | .sparseReq => blankRequired env fields
 
 theorem blank_dict (env : Env) (n : Option Str) (o : Bool) (mode : DictMode) (policy : Policy)
     (fields : List Schema) : blank env (.dict n o mode policy fields) = .dict (blankMs env mode fields) := by
@@ -362,7 +244,7 @@ theorem blankRequired_sublist (env : Env) (fs : List Schema) :
     unfold blankRequired
     split
     · exact List.Sublist.cons _ ih
-    · simp only [List.map_cons, fieldNames]; exact List.Sublist.cons₂ _ ih
+    · simp only [List.map_cons, fieldNames]; exact List.Sublist.cons_cons _ ih
 
 theorem mem_blankFields (env : Env) (fs : List Schema) (p : Str × Elem) (h : p ∈ blankFields env fs) :
     ∃ f ∈ fs, p = (f.name.getD [], blank env f) := by
@@ -385,6 +267,13 @@ theorem mem_blankRequired (env : Env) (fs : List Schema) (p : Str × Elem) (h : 
     · rcases List.mem_cons.mp h with rfl | h
       · exact ⟨f, by simp, rfl⟩
       · obtain ⟨g, hg, he⟩ := ih h; exact ⟨g, List.mem_cons_of_mem _ hg, he⟩
+
+theorem mem_blankMs (env : Env) (mode : DictMode) (fs : List Schema) (p : Str × Elem)
+    (h : p ∈ blankMs env mode fs) : ∃ f ∈ fs, p = (f.name.getD [], blank env f) := by
+  cases mode with
+  | dense => exact mem_blankFields env fs p h
+  | sparse => exact absurd h (by simp [blankMs])
+  | sparseReq => exact mem_blankRequired env fs p h
 
 theorem nodup_of_nodup_map {α β} (f : α → β) (l : List α) (h : (l.map f).Nodup) : l.Nodup := by
   induction l with
@@ -410,73 +299,205 @@ theorem name_getD (f : Schema) (fs : List Schema) (hs : (namesOf fs).all Option.
       | some x => simp
     · exact ih hs.2 h
 
-/-- blank members are a grown mapping as soon as each blank member is stable -/
-theorem grown_blank (env : Env) (mode : DictMode) (fields : List Schema)
-    (hs : (namesOf fields).all Option.isSome = true) (hn : (namesOf fields).Nodup)
-    (hst : ∀ f ∈ fields, Stable env f (blank env f)) :
-    Grown env fields (blankMs env mode fields) (blankMs env mode fields) := by
+theorem blankMs_nodup (env : Env) (mode : DictMode) (fields : List Schema)
+    (hs : (namesOf fields).all Option.isSome = true) (hn : (namesOf fields).Nodup) :
+    ((blankMs env mode fields).map (·.1)).Nodup := by
   have hfn := fieldNames_nodup fields hs hn
-  refine ⟨?_, List.take_of_length_le (by simp), ?_⟩
-  · cases mode with
-    | dense => simp only [blankMs, blankFields_keys]; exact hfn
-    | sparse => simp [blankMs]
-    | sparseReq => exact List.Nodup.sublist (blankRequired_sublist env fields) hfn
-  · intro p hp
-    have : ∃ f ∈ fields, p = (f.name.getD [], blank env f) := by
-      cases mode with
-      | dense => exact mem_blankFields env fields p hp
-      | sparse => exact absurd hp (by simp [blankMs])
-      | sparseReq => exact mem_blankRequired env fields p hp
-    obtain ⟨f, hf, rfl⟩ := this
-    rw [setOne_of_mem env fields hn f hf _ (name_getD f fields hs hf)]
-    exact congrArg some (hst f hf)
+  cases mode with
+  | dense => simp only [blankMs, blankFields_keys]; exact hfn
+  | sparse => simp [blankMs]
+  | sparseReq => exact List.Nodup.sublist (blankRequired_sublist env fields) hfn
 
-theorem policy_ok_of_grown (env : Env) (mode : DictMode) (policy : Policy) (fields : List Schema)
-    (hpol : mode = .dense ∨ policy ≠ .strict) (ms : List (Str × Elem))
-    (hg : Grown env fields (blankMs env mode fields) ms) :
-    policyRaise policy fields (ms.map (·.1)) = none := by
-  have hextra : (ms.map (·.1)).all (fun k => (fieldNames fields).contains k) = true := by
-    apply List.all_eq_true.mpr
-    intro k hk
-    obtain ⟨p, hp, rfl⟩ := List.mem_map.mp hk
-    have := setOne_some_key env fields p.1 _ _ (hg.stable p hp)
-    simpa using this
-  unfold policyRaise
-  simp only [hextra, Bool.not_true, Bool.false_eq_true, if_false]
-  cases policy with
-  | subset => rfl
-  | duck => rfl
-  | off => rfl
-  | strict =>
-    rcases hpol with hm | hp
-    · subst hm
-      have hpre := hg.pre
-      simp only [blankMs, blankFields_keys, List.length_map] at hpre
-      have hmiss : (fieldNames fields).all (fun n => (ms.map (·.1)).contains n) = true := by
-        apply List.all_eq_true.mpr
-        intro n hn
-        have : n ∈ (ms.map (·.1)).take (blankFields env fields).length := by rw [hpre]; exact hn
-        have := List.mem_of_mem_take this
-        simpa using this
-      simp only [hmiss, Bool.not_true, Bool.false_eq_true, if_false]
-    · exact absurd rfl hp
+/-- a member `_reset()` leaves is the blank element of the field of that name -/
+theorem blankMs_is_blank (env : Env) (mode : DictMode) (fields : List Schema)
+    (hs : (namesOf fields).all Option.isSome = true) (hn : (namesOf fields).Nodup)
+    (p : Str × Elem) (hp : p ∈ blankMs env mode fields) :
+    ∃ f, f ∈ fields ∧ findField p.1 fields = some f ∧ p.2 = blank env f := by
+  obtain ⟨g, hg, rfl⟩ := mem_blankMs env mode fields p hp
+  exact ⟨g, hg, findField_of_mem fields hn g hg _ (name_getD g fields hs hg), rfl⟩
 
-/-! ### the theorem -/
+/-! ### the shape of the states `set()` builds -/
 
-theorem setMembers_rebuild (env : Env) (member : Schema)
-    (hstep : ∀ x e, setNative env member x = .ok (e, true) → Stable env member e) :
-    ∀ (xs : List Native) (ms : List Elem), setMembers env member xs = .ok (ms, true) →
-      setMembers env member (value.valueList ms) = .ok (ms, true) := by
+/-- distinct keys, the keys `_reset()` leaves first and in place -/
+def KeysOk (B ms : List (Str × Elem)) : Prop :=
+  (ms.map (·.1)).Nodup ∧ (ms.map (·.1)).take B.length = B.map (·.1)
+
+mutual
+/-- the element conforms to the schema: Dict members are keyed by field names, keys distinct,
+    the always-present ones first, in declaration order -/
+def Shaped (env : Env) : Schema → Elem → Prop
+  | .leaf .., .leaf .. => True
+  | .dict _ _ mode _ fields, .dict ms => KeysOk (blankMs env mode fields) ms ∧ ShapedMs env fields ms
+  | .seq _ _ member, .seq ms => ShapedL env member ms
+  | _, _ => False
+def ShapedMs (env : Env) (fields : List Schema) : List (Str × Elem) → Prop
+  | [] => True
+  | (k, m) :: rest =>
+    (match findField k fields with
+     | some f => Shaped env f m
+     | none => False) ∧ ShapedMs env fields rest
+def ShapedL (env : Env) (member : Schema) : List Elem → Prop
+  | [] => True
+  | m :: rest => Shaped env member m ∧ ShapedL env member rest
+end
+
+theorem shapedMs_iff (env : Env) (fields : List Schema) (ms : List (Str × Elem)) :
+    ShapedMs env fields ms ↔ ∀ p ∈ ms, ∃ f, findField p.1 fields = some f ∧ Shaped env f p.2 := by
+  induction ms with
+  | nil => simp [ShapedMs]
+  | cons p ps ih =>
+    obtain ⟨k, m⟩ := p
+    simp only [ShapedMs, ih, List.mem_cons, forall_eq_or_imp]
+    constructor
+    · rintro ⟨h1, h2⟩
+      refine ⟨?_, h2⟩
+      cases hf : findField k fields with
+      | none => simp [hf] at h1
+      | some f => simp only [hf] at h1; exact ⟨f, rfl, h1⟩
+    · rintro ⟨⟨f, hf, hs⟩, h2⟩
+      refine ⟨?_, h2⟩
+      simp only [hf]; exact hs
+
+theorem shapedL_iff (env : Env) (member : Schema) (ms : List Elem) :
+    ShapedL env member ms ↔ ∀ m ∈ ms, Shaped env member m := by
+  induction ms with
+  | nil => simp [ShapedL]
+  | cons p ps ih => simp [ShapedL, ih]
+
+theorem leafStableMs_iff (env : Env) (nf : Bool) (fields : List Schema) (ms : List (Str × Elem)) :
+    leafStableMs env nf fields ms = true
+      ↔ ∀ p ∈ ms, ∃ f, findField p.1 fields = some f ∧ leafStable env nf f p.2 = true := by
+  induction ms with
+  | nil => simp [leafStableMs]
+  | cons p ps ih =>
+    obtain ⟨k, m⟩ := p
+    simp only [leafStableMs, Bool.and_eq_true, ih, List.mem_cons, forall_eq_or_imp]
+    constructor
+    · rintro ⟨h1, h2⟩
+      refine ⟨?_, h2⟩
+      cases hf : findField k fields with
+      | none => simp [hf] at h1
+      | some f => simp only [hf] at h1; exact ⟨f, rfl, h1⟩
+    · rintro ⟨⟨f, hf, hs⟩, h2⟩
+      refine ⟨?_, h2⟩
+      simp only [hf]; exact hs
+
+theorem leafStableL_iff (env : Env) (nf : Bool) (member : Schema) (ms : List Elem) :
+    leafStableL env nf member ms = true ↔ ∀ m ∈ ms, leafStable env nf member m = true := by
+  induction ms with
+  | nil => simp [leafStableL]
+  | cons p ps ih => simp [leafStableL, ih]
+
+/-! ### `set()` builds shaped states -/
+
+/-- the members while `Dict.set` runs: keys as `KeysOk`, every member satisfies `P` for its field -/
+structure Inv (fields : List Schema) (P : Schema → Elem → Prop) (B ms : List (Str × Elem)) : Prop where
+  keys : KeysOk B ms
+  mem : ∀ p ∈ ms, ∃ f, findField p.1 fields = some f ∧ P f p.2
+
+theorem inv_setPairs (env : Env) (fields : List Schema) (P : Schema → Elem → Prop) (B : List (Str × Elem))
+    (hblank : ∀ key f, findField key fields = some f → P f (blank env f))
+    (hstep : ∀ key f, findField key fields = some f → ∀ cur v e fl, P f cur →
+      setNative env f cur v = .ok (e, fl) → P f e) :
+    ∀ (kvs : List (Native × Native)) (cur ms : List (Str × Elem)) (fl : Bool), Inv fields P B cur →
+      setPairs env fields cur kvs = .ok (ms, fl) → Inv fields P B ms := by
+  intro kvs
+  induction kvs with
+  | nil =>
+    intro cur ms fl hg h
+    simp only [setPairs, Except.ok.injEq, Prod.mk.injEq] at h
+    rw [← h.1]; exact hg
+  | cons kv rest ih =>
+    intro cur ms fl hg h
+    obtain ⟨key, v⟩ := kv
+    unfold setPairs at h
+    split at h
+    · simp at h
+    · split at h
+      · rename_i k _
+        rw [setOne_eq] at h
+        cases hff : findField k fields with
+        | none => simp only [hff, Option.map_none] at h; exact ih cur ms fl hg h
+        | some f =>
+          simp only [hff, Option.map_some] at h
+          have hPcur : P f ((lookup k cur).getD (blank env f)) := by
+            cases hl : lookup k cur with
+            | none => exact hblank k f hff
+            | some old =>
+              obtain ⟨f', hf', hp⟩ := hg.mem (k, old) (lookup_mem k cur old hl)
+              simp only [hff, Option.some.injEq] at hf'
+              subst hf'
+              exact hp
+          cases hr : setNative env f ((lookup k cur).getD (blank env f)) v with
+          | error err => simp [hr] at h
+          | ok ef =>
+            obtain ⟨e, f1⟩ := ef
+            simp only [hr] at h
+            have hPe := hstep k f hff _ v e f1 hPcur hr
+            split at h
+            · rename_i ms'' f' hrest
+              simp only [Except.ok.injEq, Prod.mk.injEq] at h
+              obtain ⟨hms, _⟩ := h
+              subst hms
+              apply ih _ _ _ _ hrest
+              cases hl : lookup k cur with
+              | some old =>
+                simp only
+                refine ⟨⟨by rw [replace_keys]; exact hg.keys.1, by rw [replace_keys]; exact hg.keys.2⟩, ?_⟩
+                intro p hp
+                rcases mem_replace k e cur p hp with rfl | hp
+                · exact ⟨f, hff, hPe⟩
+                · exact hg.mem p hp
+              | none =>
+                simp only
+                have hnot : k ∉ cur.map (·.1) := by
+                  intro hin
+                  have := lookup_isSome_of_mem k cur hin
+                  rw [hl] at this; cases this
+                refine ⟨⟨?_, ?_⟩, ?_⟩
+                · simp only [List.map_append, List.map_cons, List.map_nil]
+                  apply List.nodup_append.mpr
+                  refine ⟨hg.keys.1, by simp, ?_⟩
+                  intro a ha b hb
+                  simp only [List.mem_singleton] at hb
+                  subst hb
+                  intro heq; subst heq; exact hnot ha
+                · have hlen : B.length ≤ (cur.map (·.1)).length := by
+                    have := congrArg List.length hg.keys.2
+                    simp only [List.length_take, List.length_map] at this ⊢
+                    omega
+                  simp only [List.map_append]
+                  rw [List.take_append_of_le_length hlen]
+                  exact hg.keys.2
+                · intro p hp
+                  rcases List.mem_append.mp hp with hp | hp
+                  · exact hg.mem p hp
+                  · simp only [List.mem_singleton] at hp; subst hp; exact ⟨f, hff, hPe⟩
+            · simp at h
+      · exact ih cur ms fl hg h
+
+theorem inv_blank (env : Env) (mode : DictMode) (fields : List Schema) (P : Schema → Elem → Prop)
+    (hs : (namesOf fields).all Option.isSome = true) (hn : (namesOf fields).Nodup)
+    (hblank : ∀ f ∈ fields, P f (blank env f)) :
+    Inv fields P (blankMs env mode fields) (blankMs env mode fields) := by
+  refine ⟨⟨blankMs_nodup env mode fields hs hn, List.take_of_length_le (by simp)⟩, ?_⟩
+  intro p hp
+  obtain ⟨f, hf, hff, he⟩ := blankMs_is_blank env mode fields hs hn p hp
+  exact ⟨f, hff, by rw [he]; exact hblank f hf⟩
+
+theorem setMembers_mem (env : Env) (member : Schema) :
+    ∀ (xs : List Native) (ms : List Elem) (fl : Bool), setMembers env member xs = .ok (ms, fl) →
+      ∀ m ∈ ms, ∃ x f, setNative env member (blank env member) x = .ok (m, f) := by
   intro xs
   induction xs with
   | nil =>
-    intro ms h
-    simp only [setMembers, Except.ok.injEq, Prod.mk.injEq, and_true] at h
-    subst h; simp [value.valueList, setMembers]
+    intro ms fl h
+    simp only [setMembers, Except.ok.injEq, Prod.mk.injEq] at h
+    intro m hm; rw [← h.1] at hm; simp at hm
   | cons x xs ih =>
-    intro ms h
+    intro ms fl h
     simp only [setMembers] at h
-    cases h1 : setNative env member x with
+    cases h1 : setNative env member (blank env member) x with
     | error r => simp [h1] at h
     | ok ef =>
       obtain ⟨e, f⟩ := ef
@@ -485,36 +506,32 @@ theorem setMembers_rebuild (env : Env) (member : Schema)
       | error r => simp [h2] at h
       | ok esf =>
         obtain ⟨es, f'⟩ := esf
-        simp only [h2, Except.ok.injEq, Prod.mk.injEq, Bool.and_eq_true] at h
-        obtain ⟨hms, hf, hf'⟩ := h
-        subst hms; subst hf; subst hf'
-        have hs := hstep x e h1
-        unfold Stable at hs
-        simp only [value.valueList, setMembers, hs, ih es h2, Bool.and_self]
+        simp only [h2, Except.ok.injEq, Prod.mk.injEq] at h
+        intro m hm
+        rw [← h.1] at hm
+        rcases List.mem_cons.mp hm with rfl | hm
+        · exact ⟨x, f, h1⟩
+        · exact ih es f' h2 m hm
 
 mutual
-theorem stable_blank (env : Env) (hb : BlankOk env) : ∀ s : Schema, wf s = true →
-    Stable env s (blank env s)
-  | .leaf n o k, _ => by
-    have := hb k
-    simp only [Stable, blank, value, setNative, this]
-  | .seq n o member, _ => by
-    simp [Stable, blank, value, value.valueList, setNative, iterate, setMembers]
+/-- a fresh element is shaped -/
+theorem shaped_blank (env : Env) : ∀ s : Schema, wf s = true → Shaped env s (blank env s)
+  | .leaf n o k, _ => by simp [blank, Shaped]
+  | .seq n o member, _ => by simp [blank, Shaped, ShapedL]
   | .dict n o mode policy fields, hw => by
     simp only [wf, Bool.and_eq_true, Bool.or_eq_true, decide_eq_true_eq] at hw
-    obtain ⟨⟨⟨hwl, hsome⟩, hnd⟩, hpol⟩ := hw
-    have hg := grown_blank env mode fields hsome hnd (stable_blankL env hb fields hwl)
-    have hpolok := policy_ok_of_grown env mode policy fields hpol _ hg
-    have hreb := rebuild env fields _ _ hg (blankMs env mode fields).length 0 (by simp)
-    simp only [List.take_zero, List.nil_append, List.drop_zero] at hreb
-    simp only [Stable, blank_dict, value, setNative, toPairs, valueMembers_keys, hpolok, hreb]
-theorem stable_blankL (env : Env) (hb : BlankOk env) : ∀ fs : List Schema, wfL fs = true →
-    ∀ f ∈ fs, Stable env f (blank env f)
+    obtain ⟨⟨⟨hwl, hsome⟩, hnd⟩, _⟩ := hw
+    have hg := inv_blank env mode fields (Shaped env) hsome hnd (shaped_blankL env fields hwl)
+    rw [blank_dict]
+    simp only [Shaped]
+    exact ⟨hg.keys, (shapedMs_iff env fields _).mpr hg.mem⟩
+theorem shaped_blankL (env : Env) : ∀ fs : List Schema, wfL fs = true →
+    ∀ f ∈ fs, Shaped env f (blank env f)
   | [], _ => fun f hf => by simp at hf
   | g :: gs, hw => by
     simp only [wfL, Bool.and_eq_true] at hw
-    have h1 := stable_blank env hb g hw.1
-    have h2 := stable_blankL env hb gs hw.2
+    have h1 := shaped_blank env g hw.1
+    have h2 := shaped_blankL env gs hw.2
     intro f hf
     rcases List.mem_cons.mp hf with rfl | h
     · exact h1
@@ -522,37 +539,44 @@ theorem stable_blankL (env : Env) (hb : BlankOk env) : ∀ fs : List Schema, wfL
 end
 
 mutual
-theorem stable_set (env : Env) (hi : LeafIdem env) (hb : BlankOk env) : ∀ (s : Schema), wf s = true →
-    ∀ (x : Native) (e : Elem), setNative env s x = .ok (e, true) → Stable env s e
-  | .leaf n o k, _, x, e, h => by
+/-- whatever `set()` is given and whatever it returns, it leaves a shaped element shaped -/
+theorem shaped_set (env : Env) : ∀ (s : Schema), wf s = true →
+    ∀ (cur : Elem) (x : Native) (e : Elem) (fl : Bool), Shaped env s cur →
+      setNative env s cur x = .ok (e, fl) → Shaped env s e
+  | .leaf n o k, _, cur, x, e, fl, _, h => by
     simp only [setNative, Except.ok.injEq, Prod.mk.injEq] at h
-    obtain ⟨he, hf⟩ := h
-    subst he
-    have := hi k x hf
-    simp only [Stable, value, setNative, this]
-  | .seq n o member, hw, x, e, h => by
+    rw [← h.1]; simp [Shaped]
+  | .seq n o member, hw, cur, x, e, fl, _, h => by
     simp only [wf] at hw
     simp only [setNative] at h
     cases hit : iterate x with
-    | none => simp [hit] at h
+    | none =>
+      simp only [hit, Except.ok.injEq, Prod.mk.injEq] at h
+      rw [← h.1]; simp [Shaped, ShapedL]
     | some xs =>
       simp only [hit] at h
       cases hm : setMembers env member xs with
-      | error r => cases r <;> simp [hm] at h
+      | error r =>
+        cases r <;> simp only [hm, Except.ok.injEq, Prod.mk.injEq, reduceCtorEq] at h
+        rw [← h.1]; simp [Shaped, ShapedL]
       | ok msf =>
         obtain ⟨ms, f⟩ := msf
         simp only [hm, Except.ok.injEq, Prod.mk.injEq] at h
-        obtain ⟨he, hf⟩ := h
-        subst he; subst hf
-        have := setMembers_rebuild env member (fun x e hx => stable_set env hi hb member hw x e hx) xs ms hm
-        simp only [Stable, value, setNative, iterate, this]
-  | .dict n o mode policy fields, hw, x, e, h => by
+        rw [← h.1]
+        simp only [Shaped]
+        apply (shapedL_iff env member ms).mpr
+        intro m hmm
+        obtain ⟨x', f', hx'⟩ := setMembers_mem env member xs ms f hm m hmm
+        exact shaped_set env member hw _ x' m f' (shaped_blank env member hw) hx'
+  | .dict n o mode policy fields, hw, cur, x, e, fl, hc, h => by
     have hw0 := hw
     simp only [wf, Bool.and_eq_true, Bool.or_eq_true, decide_eq_true_eq] at hw
-    obtain ⟨⟨⟨hwl, hsome⟩, hnd⟩, hpol⟩ := hw
-    simp only [setNative, blank_dict] at h
+    obtain ⟨⟨⟨hwl, hsome⟩, hnd⟩, _⟩ := hw
+    simp only [setNative] at h
     cases htp : toPairs x with
-    | none => simp [htp] at h
+    | none =>
+      simp only [htp, Except.ok.injEq, Prod.mk.injEq] at h
+      rw [← h.1]; exact hc
     | some kvs =>
       simp only [htp] at h
       cases hpr : policyRaise policy fields (kvs.map (·.1)) with
@@ -564,86 +588,373 @@ theorem stable_set (env : Env) (hi : LeafIdem env) (hb : BlankOk env) : ∀ (s :
         | ok msf =>
           obtain ⟨ms, f⟩ := msf
           simp only [hsp, Except.ok.injEq, Prod.mk.injEq] at h
-          obtain ⟨he, hf⟩ := h
-          subst he; subst hf
-          have hg0 := grown_blank env mode fields hsome hnd (stable_blankL env hb fields hwl)
-          have hg := grown_setPairs env fields _ (stable_setOne env hi hb fields hwl) kvs _ ms hg0 hsp
-          have hpolok := policy_ok_of_grown env mode policy fields hpol _ hg
-          have hreb := rebuild env fields _ _ hg ms.length 0 (by simp)
-          simp only [List.take_zero, List.nil_append, List.drop_zero] at hreb
-          simp only [Stable, blank_dict, value, setNative, toPairs, valueMembers_keys, hpolok, hreb]
-theorem stable_setOne (env : Env) (hi : LeafIdem env) (hb : BlankOk env) : ∀ (fs : List Schema),
-    wfL fs = true → ∀ key v e, setOne env fs key v = some (.ok (e, true)) →
-      setOne env fs key (value e) = some (.ok (e, true))
-  | [], _, key, v, e, h => by simp [setOne] at h
-  | g :: gs, hw, key, v, e, h => by
+          rw [← h.1]
+          have hg0 := inv_blank env mode fields (Shaped env) hsome hnd (shaped_blankL env fields hwl)
+          have hg := inv_setPairs env fields (Shaped env) _
+            (fun key f hf => shaped_blankL env fields hwl f (findField_mem fields key f hf).1)
+            (fun key f hf => shaped_setL env fields hwl f (findField_mem fields key f hf).1)
+            kvs _ ms f hg0 hsp
+          simp only [Shaped]
+          exact ⟨hg.keys, (shapedMs_iff env fields _).mpr hg.mem⟩
+theorem shaped_setL (env : Env) : ∀ (fs : List Schema), wfL fs = true → ∀ f ∈ fs,
+    ∀ (cur : Elem) (x : Native) (e : Elem) (fl : Bool), Shaped env f cur →
+      setNative env f cur x = .ok (e, fl) → Shaped env f e
+  | [], _ => fun f hf => by simp at hf
+  | g :: gs, hw => by
     simp only [wfL, Bool.and_eq_true] at hw
-    unfold setOne at h ⊢
-    split
-    · rename_i hk
-      simp only [hk, if_true, Option.some.injEq] at h
-      exact congrArg some (stable_set env hi hb g hw.1 v e h)
-    · rename_i hk
-      simp only [hk, if_false] at h
-      exact stable_setOne env hi hb gs hw.2 key v e h
+    have h1 := shaped_set env g hw.1
+    have h2 := shaped_setL env gs hw.2
+    intro f hf
+    rcases List.mem_cons.mp hf with rfl | h
+    · exact h1
+    · exact h2 f h
 end
 
-/-- **C03.**  If `set(x)` reported full adaptation for a fresh element `e`, then a fresh element of
-    the same schema set with `e.value` reports full adaptation and is in the very same state —
-    equal `.value`, `.u`, `==`, `flatten()` and everything else a state determines. -/
-theorem reimport (env : Env) (hi : LeafIdem env) (hb : BlankOk env) (s : Schema) (hw : wf s = true)
-    (x : Native) (e : Elem) (h : setNative env s x = .ok (e, true)) :
-    setNative env s (value e) = .ok (e, true) :=
-  stable_set env hi hb s hw x e h
+/-! ### re-importing the exported value -/
+
+/-- `s` rebuilds `e` from `e.value` on a fresh element; with `nf` the flag is True as well -/
+def Rebuilds (env : Env) (nf : Bool) (s : Schema) (e : Elem) : Prop :=
+  ∃ b, setNative env s (blank env s) (value e) = .ok (e, b) ∧ (nf = true → b = true)
+
+/-- re-importing the exported members of a mapping rebuilds it, pair by pair -/
+theorem rebuild (env : Env) (nf : Bool) (fields : List Schema) (B ms : List (Str × Elem))
+    (hk : KeysOk B ms)
+    (hB : ∀ p ∈ B, ∀ f, findField p.1 fields = some f → p.2 = blank env f)
+    (hst : ∀ p ∈ ms, ∃ f, findField p.1 fields = some f ∧ Rebuilds env nf f p.2) :
+    ∀ (n j : Nat), j + n = ms.length →
+      ∃ b, setPairs env fields (ms.take j ++ B.drop j) ((value.valueMembers ms).drop j) = .ok (ms, b)
+        ∧ (nf = true → b = true) := by
+  have hBlen : B.length ≤ ms.length := by
+    have := congrArg List.length hk.2
+    simp only [List.length_take, List.length_map] at this
+    omega
+  intro n
+  induction n with
+  | zero =>
+    intro j hj
+    have hjl : j = ms.length := by omega
+    subst hjl
+    have h1 : (value.valueMembers ms).drop ms.length = [] := by
+      apply List.drop_eq_nil_of_le
+      rw [valueMembers_length]; exact Nat.le_refl _
+    have h2 : B.drop ms.length = [] := List.drop_eq_nil_of_le hBlen
+    exact ⟨true, by simp [h1, h2, setPairs], fun _ => rfl⟩
+  | succ n ih =>
+    intro j hj
+    have hjlt : j < ms.length := by omega
+    have hvlen := valueMembers_length ms
+    -- the j-th exported pair
+    have hdrop : (value.valueMembers ms).drop j
+        = (Native.text (ms[j]).1, value (ms[j]).2) :: (value.valueMembers ms).drop (j + 1) := by
+      rw [← List.getElem_cons_drop (h := by omega)]
+      rw [valueMembers_getElem ms j hjlt (by omega)]
+    rw [hdrop]
+    obtain ⟨f, hff, bj, hbj, hbjt⟩ := hst ms[j] (List.getElem_mem hjlt)
+    -- the key is not among the first j members
+    have hnotin : (ms[j]).1 ∉ (ms.take j).map (·.1) := by
+      intro hin
+      have hnd := hk.1
+      rw [← List.take_append_drop j (ms.map (·.1))] at hnd
+      have hd := (List.nodup_append.mp hnd).2.2
+      have h1 : (ms[j]).1 ∈ (ms.map (·.1)).take j := by rw [← List.map_take]; exact hin
+      have h2 : (ms[j]).1 ∈ (ms.map (·.1)).drop j := by
+        rw [← List.getElem_cons_drop (h := by simpa using hjlt)]
+        simp
+      exact hd _ h1 _ h2 rfl
+    have hnext : ms.take (j + 1) = ms.take j ++ [ms[j]] := by
+      rw [List.take_succ_eq_append_getElem hjlt]
+    obtain ⟨b', hb', hbt'⟩ := ih (j + 1) (by omega)
+    refine ⟨bj && b', ?_, fun h => by rw [hbjt h, hbt' h]; rfl⟩
+    simp only [setPairs, hashable, Bool.true_eq_false, if_false, setOne_eq, hff, Option.map_some]
+    by_cases hjB : j < B.length
+    · -- a member `_reset()` left sits at this position: it is set, and replaced
+      have hBj : (B[j]).1 = (ms[j]).1 := by
+        have h1 : ((ms.map (·.1)).take B.length)[j]'(by simp; omega) = (B.map (·.1))[j]'(by simpa using hjB) := by
+          simp only [hk.2]
+        simp only [List.getElem_take, List.getElem_map] at h1
+        exact h1.symm
+      have hBblank : (B[j]).2 = blank env f := hB B[j] (List.getElem_mem hjB) f (by rw [hBj]; exact hff)
+      have hBdrop : B.drop j = ((ms[j]).1, blank env f) :: B.drop (j + 1) := by
+        rw [← List.getElem_cons_drop (h := hjB), ← hBj, ← hBblank]
+      rw [hBdrop, lookup_skip_pre _ _ _ _ hnotin]
+      simp only [Option.getD_some, hbj]
+      have hrep : replace (ms[j]).1 (ms[j]).2 (ms.take j ++ ((ms[j]).1, blank env f) :: B.drop (j + 1))
+          = ms.take (j + 1) ++ B.drop (j + 1) := by
+        rw [replace_skip_pre _ _ _ _ _ hnotin]
+        rw [hnext, List.append_assoc]
+        rfl
+      rw [hrep, hb']
+    · -- past them: a fresh member is set, and appended
+      have hBd : B.drop j = [] := List.drop_eq_nil_of_le (by omega)
+      have hBd' : B.drop (j + 1) = [] := List.drop_eq_nil_of_le (by omega)
+      rw [hBd, List.append_nil, lookup_none_of_not_mem _ _ hnotin]
+      simp only [Option.getD_none, hbj]
+      rw [hBd', List.append_nil, hnext] at hb'
+      rw [hb']
+
+theorem policy_ok (env : Env) (mode : DictMode) (policy : Policy) (fields : List Schema)
+    (hpol : mode = .dense ∨ policy ≠ .strict) (ms : List (Str × Elem))
+    (hk : KeysOk (blankMs env mode fields) ms)
+    (hm : ∀ p ∈ ms, ∃ f, findField p.1 fields = some f) :
+    policyRaise policy fields (ms.map (fun p => Native.text p.1)) = none := by
+  have hextra : (ms.map (fun p => Native.text p.1)).all (isField fields) = true := by
+    apply List.all_eq_true.mpr
+    intro k hkm
+    obtain ⟨p, hp, rfl⟩ := List.mem_map.mp hkm
+    obtain ⟨f, hf⟩ := hm p hp
+    have := findField_key fields p.1 f hf
+    simpa [isField] using this
+  have hhash : (ms.map (fun p => Native.text p.1)).all hashable = true := by
+    apply List.all_eq_true.mpr
+    intro k hkm
+    obtain ⟨p, _, rfl⟩ := List.mem_map.mp hkm
+    simp [hashable]
+  unfold policyRaise
+  simp only [hextra, hhash, Bool.not_true, Bool.false_eq_true, if_false]
+  cases policy with
+  | subset => rfl
+  | duck => rfl
+  | off => rfl
+  | strict =>
+    rcases hpol with hmd | hp
+    · subst hmd
+      have hpre := hk.2
+      simp only [blankMs, blankFields_keys] at hpre
+      have hmiss : (fieldNames fields).all
+          (fun n => (ms.map (fun p => Native.text p.1)).any (isText n)) = true := by
+        apply List.all_eq_true.mpr
+        intro n hn
+        have : n ∈ (ms.map (·.1)).take (blankFields env fields).length := by rw [hpre]; exact hn
+        have := List.mem_of_mem_take this
+        obtain ⟨p, hp, rfl⟩ := List.mem_map.mp this
+        apply List.any_eq_true.mpr
+        exact ⟨Native.text p.1, List.mem_map.mpr ⟨p, hp, rfl⟩, by simp [isText]⟩
+      simp only [hmiss, Bool.not_true, Bool.false_eq_true, if_false]
+    · exact absurd rfl hp
+
+theorem setMembers_rebuild (env : Env) (nf : Bool) (member : Schema) :
+    ∀ (ms : List Elem), (∀ m ∈ ms, Rebuilds env nf member m) →
+      ∃ b, setMembers env member (value.valueList ms) = .ok (ms, b) ∧ (nf = true → b = true) := by
+  intro ms
+  induction ms with
+  | nil => intro _; exact ⟨true, by simp [value.valueList, setMembers], fun _ => rfl⟩
+  | cons m ms ih =>
+    intro h
+    obtain ⟨b1, h1, ht1⟩ := h m (by simp)
+    obtain ⟨b2, h2, ht2⟩ := ih (fun m' hm' => h m' (List.mem_cons_of_mem _ hm'))
+    refine ⟨b1 && b2, ?_, fun hn => by rw [ht1 hn, ht2 hn]; rfl⟩
+    simp only [value.valueList, setMembers, h1, h2]
+
+mutual
+/-- a shaped element whose leaves re-adapt to their own state is rebuilt by its exported value -/
+theorem rebuilds_of_shaped (env : Env) (nf : Bool) : ∀ (s : Schema), wf s = true →
+    ∀ (e : Elem), Shaped env s e → leafStable env nf s e = true → Rebuilds env nf s e
+  | .leaf n o k, _, e, hs, hl => by
+    cases e with
+    | leaf v u p =>
+      simp only [leafStable, Bool.and_eq_true, decide_eq_true_eq, Bool.or_eq_true,
+        Bool.not_eq_true'] at hl
+      refine ⟨(env.adapt k (env.blankLeaf k) v).1, ?_, ?_⟩
+      · simp only [value, setNative, blank, leafStateOf, hl.1]
+      · intro hn
+        rcases hl.2 with h | h
+        · rw [hn] at h; cases h
+        · exact h
+    | dict ms => simp [Shaped] at hs
+    | seq ms => simp [Shaped] at hs
+  | .seq n o member, hw, e, hs, hl => by
+    simp only [wf] at hw
+    cases e with
+    | leaf v u p => simp [Shaped] at hs
+    | dict ms => simp [Shaped] at hs
+    | seq ms =>
+      simp only [Shaped] at hs
+      simp only [leafStable] at hl
+      have hs' := (shapedL_iff env member ms).mp hs
+      have hl' := (leafStableL_iff env nf member ms).mp hl
+      obtain ⟨b, hb, hbt⟩ := setMembers_rebuild env nf member ms
+        (fun m hm => rebuilds_of_shaped env nf member hw m (hs' m hm) (hl' m hm))
+      exact ⟨b, by simp only [value, setNative, iterate, hb], hbt⟩
+  | .dict n o mode policy fields, hw, e, hs, hl => by
+    simp only [wf, Bool.and_eq_true, Bool.or_eq_true, decide_eq_true_eq] at hw
+    obtain ⟨⟨⟨hwl, hsome⟩, hnd⟩, hpol⟩ := hw
+    cases e with
+    | leaf v u p => simp [Shaped] at hs
+    | seq ms => simp [Shaped] at hs
+    | dict ms =>
+      simp only [Shaped] at hs
+      simp only [leafStable] at hl
+      obtain ⟨hk, hsm⟩ := hs
+      have hs' := (shapedMs_iff env fields ms).mp hsm
+      have hl' := (leafStableMs_iff env nf fields ms).mp hl
+      have hst : ∀ p ∈ ms, ∃ f, findField p.1 fields = some f ∧ Rebuilds env nf f p.2 := by
+        intro p hp
+        obtain ⟨f, hf, hsf⟩ := hs' p hp
+        obtain ⟨f', hf', hlf⟩ := hl' p hp
+        rw [hf] at hf'
+        simp only [Option.some.injEq] at hf'
+        subst hf'
+        exact ⟨f, hf, rebuilds_of_shapedL env nf fields hwl f (findField_mem fields p.1 f hf).1 p.2 hsf hlf⟩
+      have hB : ∀ p ∈ blankMs env mode fields, ∀ f, findField p.1 fields = some f → p.2 = blank env f := by
+        intro p hp f hf
+        obtain ⟨g, _, hg, he⟩ := blankMs_is_blank env mode fields hsome hnd p hp
+        rw [hf] at hg
+        simp only [Option.some.injEq] at hg
+        subst hg; exact he
+      have hpolok := policy_ok env mode policy fields hpol ms hk (fun p hp => (hs' p hp).imp (fun _ h => h.1))
+      obtain ⟨b, hreb, hbt⟩ := rebuild env nf fields _ ms hk hB hst ms.length 0 (by simp)
+      simp only [List.take_zero, List.nil_append, List.drop_zero] at hreb
+      exact ⟨b, by simp only [value, setNative, toPairs, valueMembers_keys, hpolok, hreb], hbt⟩
+theorem rebuilds_of_shapedL (env : Env) (nf : Bool) : ∀ (fs : List Schema), wfL fs = true → ∀ f ∈ fs,
+    ∀ (e : Elem), Shaped env f e → leafStable env nf f e = true → Rebuilds env nf f e
+  | [], _ => fun f hf => by simp at hf
+  | g :: gs, hw => by
+    simp only [wfL, Bool.and_eq_true] at hw
+    have h1 := rebuilds_of_shaped env nf g hw.1
+    have h2 := rebuilds_of_shapedL env nf gs hw.2
+    intro f hf
+    rcases List.mem_cons.mp hf with rfl | h
+    · exact h1
+    · exact h2 f h
+end
+
+/-! ### the theorem -/
+
+/-- **C03.**  If `set(x)` reported full adaptation on an element (in any state `cur` that `set()`
+    can have built) and left it in state `e`, and the leaves that occur in `e` re-adapt to their own
+    state (`leafStable`, evaluated per case on the tables of the real classes), then a fresh element
+    of the same schema set with `e.value` is in the very same state — equal `.value`, `.u`, `==`,
+    `flatten()` and everything else a state determines.  The flag of the second `set()` is not
+    claimed. -/
+theorem reimport (env : Env) (s : Schema) (hw : wf s = true) (cur : Elem) (hc : Shaped env s cur)
+    (x : Native) (e : Elem) (h : setNative env s cur x = .ok (e, true))
+    (hl : leafStable env false s e = true) :
+    ∃ b, setNative env s (blank env s) (value e) = .ok (e, b) := by
+  obtain ⟨b, hb, _⟩ := rebuilds_of_shaped env false s hw e (shaped_set env s hw cur x e true hc h) hl
+  exact ⟨b, hb⟩
+
+/-- the case the property names first: the element was fresh -/
+theorem reimport_fresh (env : Env) (s : Schema) (hw : wf s = true)
+    (x : Native) (e : Elem) (h : setNative env s (blank env s) x = .ok (e, true))
+    (hl : leafStable env false s e = true) :
+    ∃ b, setNative env s (blank env s) (value e) = .ok (e, b) :=
+  reimport env s hw _ (shaped_blank env s hw) x e h hl
+
+/-- if the leaves of `e` also report True on their own exported value, so does the container -/
+theorem reimport_true (env : Env) (s : Schema) (hw : wf s = true) (cur : Elem) (hc : Shaped env s cur)
+    (x : Native) (e : Elem) (h : setNative env s cur x = .ok (e, true))
+    (hl : leafStable env true s e = true) :
+    setNative env s (blank env s) (value e) = .ok (e, true) := by
+  obtain ⟨b, hb, ht⟩ := rebuilds_of_shaped env true s hw e (shaped_set env s hw cur x e true hc h) hl
+  rw [ht rfl] at hb; exact hb
 
 /-- in particular the exported values agree -/
-theorem reimport_value (env : Env) (hi : LeafIdem env) (hb : BlankOk env) (s : Schema) (hw : wf s = true)
-    (x : Native) (e : Elem) (h : setNative env s x = .ok (e, true)) :
-    ∃ e', setNative env s (value e) = .ok (e', true) ∧ value e' = value e :=
-  ⟨e, reimport env hi hb s hw x e h, rfl⟩
+theorem reimport_value (env : Env) (s : Schema) (hw : wf s = true) (cur : Elem) (hc : Shaped env s cur)
+    (x : Native) (e : Elem) (h : setNative env s cur x = .ok (e, true))
+    (hl : leafStable env false s e = true) :
+    ∃ e' b, setNative env s (blank env s) (value e) = .ok (e', b) ∧ value e' = value e := by
+  obtain ⟨b, hb⟩ := reimport env s hw cur hc x e h hl
+  exact ⟨e, b, hb, rfl⟩
 
-/-! ### non-vacuity and the need for the leaf hypothesis -/
+/-! ### non-vacuity -/
 
-/-- a toy leaf table: texts are kept as they are; anything else is rejected -/
+/-- a toy leaf table: texts are kept as they are, None gives an empty leaf; anything else is
+    rejected -/
 def exEnv : Env :=
-  { adapt := fun _ x => match x with
+  { adapt := fun _ _ x => match x with
       | .text s => (true, .text s, s, [])
       | .none => (true, .none, [], [])
       | _ => (false, .none, [], [])
     blankLeaf := fun _ => (.none, [], []) }
 
-theorem exEnv_idem : LeafIdem exEnv := by
-  intro k x h
-  cases x <;> simp_all [exEnv]
-
-theorem exEnv_blank : BlankOk exEnv := by intro k; rfl
-
 def exSchema : Schema :=
   .dict none false .sparse .subset
     [.leaf (some "a".toList) false 0, .seq (some "l".toList) false (.leaf none false 0)]
 
-/-- the premises of `reimport` are met by a partially specified SparseDict holding a list -/
-example : setNative exEnv exSchema (.dict [("l".toList, .list [.text "x".toList, .none])])
-      = .ok (.dict [("l".toList, .seq [.leaf (.text "x".toList) "x".toList [], .leaf .none [] []])], true)
-    ∧ wf exSchema = true := by
-  refine ⟨?_, by decide⟩
-  simp [exSchema, setNative, toPairs, policyRaise, fieldNames, Schema.name, blank, setPairs, setOne,
-    lookup, iterate, setMembers, exEnv]
+def exElem : Elem :=
+  .dict [("l".toList, .seq [.leaf (.text "x".toList) "x".toList [], .leaf .none [] []])]
 
-/-- KF-C03-a in the model: a leaf whose value does not re-adapt to itself (a pruning JoinedString
-    holding an empty member) breaks the re-import — `LeafIdem` is needed. -/
+/-- the premises of `reimport_fresh` are met by a partially specified SparseDict holding a list,
+    given as a list of pairs (a 2-tuple here) -/
+example : setNative exEnv exSchema (blank exEnv exSchema)
+        (.list [.tuple [.text "l".toList, .list [.text "x".toList, .none]]]) = .ok (exElem, true)
+    ∧ wf exSchema = true ∧ leafStable exEnv false exSchema exElem = true := by
+  refine ⟨?_, by decide, ?_⟩
+  · simp [exSchema, exElem, setNative, toPairs, iterate, unpackPairs, policyRaise, fieldNames, isField,
+      hashable, Schema.name, blank, blankMs, setPairs, setOne, lookup, setMembers, exEnv]
+  · simp [exSchema, exElem, leafStable, leafStableMs, leafStableL, findField, Schema.name, exEnv]
+
+/-- the adapt table the harness extracts from the real DateYYYYMMDD: an unparseable text gives
+    (True, None, '', ['', '', '']); None gives False and leaves the state as it is; a date is
+    taken.  The old hypotheses (every adapted input re-adapts with the flag True; a fresh leaf set
+    with its own value reports True) are false of it, `leafStable` holds on what it builds. -/
+def dateEnv : Env :=
+  { adapt := fun _ st x => match x with
+      | .text _ => (true, .none, [], [[], [], []])
+      | .atom d => (true, .atom d, d, [d, d, d])
+      | _ => (false, st)
+    blankLeaf := fun _ => (.none, [], [[], [], []]) }
+
+def dateSchema : Schema := .dict none false .dense .subset [.leaf (some "d".toList) false 0]
+
+def dateElem : Elem := .dict [("d".toList, .leaf .none [] [[], [], []])]
+
+/-- `reimport` applies to `{'d': 'garbage'}` on a Dict holding a DateYYYYMMDD-like leaf … -/
+example : setNative dateEnv dateSchema (blank dateEnv dateSchema)
+        (.dict [(.text "d".toList, .text "garbage".toList)]) = .ok (dateElem, true)
+    ∧ wf dateSchema = true ∧ leafStable dateEnv false dateSchema dateElem = true := by
+  refine ⟨?_, by decide, ?_⟩
+  · simp [dateSchema, dateElem, setNative, toPairs, policyRaise, fieldNames, isField, hashable,
+      Schema.name, blank, blankMs, blankFields, setPairs, setOne, lookup, replace, dateEnv]
+  · simp [dateSchema, dateElem, leafStable, leafStableMs, findField, Schema.name, dateEnv]
+
+/-- … where the flag of the second `set()` is False (so no theorem that promises True applies:
+    the table is not idempotent with flags) while the state is rebuilt, as `reimport` says -/
+example : setNative dateEnv dateSchema (blank dateEnv dateSchema) (value dateElem) = .ok (dateElem, false)
+    ∧ (dateEnv.adapt 0 (dateEnv.blankLeaf 0) (dateEnv.adapt 0 (dateEnv.blankLeaf 0) (.text "garbage".toList)).2.1).1
+        = false
+    ∧ leafStable dateEnv true dateSchema dateElem = false := by
+  refine ⟨?_, by simp [dateEnv], ?_⟩
+  · simp [dateSchema, dateElem, value, value.valueMembers, setNative, toPairs, policyRaise, fieldNames,
+      isField, hashable, Schema.name, blank, blankMs, blankFields, setPairs, setOne, lookup,
+      replace, dateEnv, leafStateOf]
+  · simp [dateSchema, dateElem, leafStable, leafStableMs, findField, Schema.name, dateEnv]
+
+def dupSchema : Schema :=
+  .dict none false .dense .subset
+    [.dict (some "m".toList) false .dense .subset [.leaf (some "a".toList) false 0]]
+
+/-- a member set twice through a duplicate key keeps the state of the first `set()` when the second
+    value is not dict-like (`Dict.set` returns False before `_reset()`); the premises of `reimport`
+    do not hold for that input (flag False), the element is shaped all the same -/
+example : setNative exEnv dupSchema (blank exEnv dupSchema)
+      (.list [.list [.text "m".toList, .dict [(.text "a".toList, .text "x".toList)]],
+              .text "m7".toList])
+    = .ok (.dict [("m".toList, .dict [("a".toList, .leaf (.text "x".toList) "x".toList [])])], false) := by
+  simp [dupSchema, setNative, toPairs, iterate, unpackPairs, policyRaise, fieldNames, isField,
+    hashable, Schema.name, blank, blankMs, blankFields, setPairs, setOne, lookup, replace, exEnv]
+
+/-! ### the need for the leaf hypothesis -/
+
+/-- KF-C03-a in the model: a leaf whose value does not re-adapt to its own state (a pruning
+    JoinedString holding an empty member text: the list ['a', ' ', 'b'] gives the parts
+    'a', '', 'b' and the value 'a,,b', which splits and prunes into 'a', 'b') -/
 def badEnv : Env :=
-  { adapt := fun _ x => match x with
+  { adapt := fun _ _ x => match x with
       | .list _ => (true, .text "a,,b".toList, "a,,b".toList, ["a".toList, [], "b".toList])
       | .text _ => (true, .text "a,b".toList, "a,b".toList, ["a".toList, "b".toList])
       | _ => (true, .none, [], [])
     blankLeaf := fun _ => (.none, [], []) }
 
+/-- without `leafStable` the re-import builds a different element, whatever flag one allows -/
 theorem reimport_needs_leafIdem :
-    ∃ x e, setNative badEnv (.leaf none false 0) x = .ok (e, true) ∧
-      setNative badEnv (.leaf none false 0) (value e) ≠ .ok (e, true) := by
-  refine ⟨.list [], .leaf (.text "a,,b".toList) "a,,b".toList ["a".toList, [], "b".toList], ?_, ?_⟩
+    ∃ x e, setNative badEnv (.leaf none false 0) (blank badEnv (.leaf none false 0)) x = .ok (e, true) ∧
+      leafStable badEnv false (.leaf none false 0) e = false ∧
+      ∀ b, setNative badEnv (.leaf none false 0) (blank badEnv (.leaf none false 0)) (value e) ≠ .ok (e, b) := by
+  refine ⟨.list [], .leaf (.text "a,,b".toList) "a,,b".toList ["a".toList, [], "b".toList], ?_, ?_, ?_⟩
   · simp [setNative, badEnv]
-  · simp [setNative, value, badEnv]
+  · simp [leafStable, badEnv]
+  · intro b
+    simp [setNative, value, badEnv]
 
 end Flatland.C03.Proofs
